@@ -39,10 +39,18 @@ race-free between point operations and never self-deadlock (DESIGN 3/C10).  Two 
     response order from one atomic counter; accepted iff TLC finds linearization points (silent Lin steps, DFS queue,
     high-water mark) and the final content is the one the linearization leaves.  The point operations TLC lists as
     made of several critical sections (NoSplit, a hint) get directed duel histories against themselves.
+(A3'') Trace_Linearize / gate: every user-supplied function the API calls (the single queue's Failed / Overflowed
+    handlers, the comparator of every Sort) releases, from inside its n-th invocation, another goroutine's point operation
+    on the same instance and stays inside until that operation returned or is seen parked on the instance lock: forced
+    overlap, no luck involved.  Sort is an atomic action of the model; a forced / refused put also records what the
+    handlers were handed.  TLC's hint OPENCB (a public method running caller code between two critical sections; the
+    extraction marks callback sites as steps of kind cb) gives the gated histories of that type more cases.
 (A4) Trace_LockDiscipline / race: the same programs run unstamped in a race-detector build; every race report
     becomes a Race(a, b) event; the specification has an action for it only when a or b is not a point
     operation.  A pair TLC predicts to race is hammered through hot keys, fresh keys (growth) and a bound in force
-    (eviction), each side repeating its calls until the other is through, until the detector confirms it."""
+    (eviction), each side repeating its calls until the other is through, until the detector confirms it.  Batch
+    operations (PutAll ...) are judged like point operations for data races (model pairs, race programs with batches
+    longer than the table has buckets, Race events)."""
 import json, os, re, shutil
 import vf
 
@@ -80,6 +88,7 @@ def events(outdir, name):
 def parse_predictions(out):
     flat = re.sub(r"\s+", " ", out)
     dead, races, other, splits, mutual = set(), set(), set(), set(), set()
+    parse_predictions.opencb = set()
     for m in re.finditer(r'<<\s*"PRED",\s*"(\w+)",\s*"(\w+)",\s*(.*?)>>', flat):
         kind, ty, rest = m.group(1), m.group(2), m.group(3)
         names = re.findall(r'"(\w+)"', rest)
@@ -89,6 +98,8 @@ def parse_predictions(out):
             races.add((ty,) + tuple(sorted(names[:2])))
         elif kind == "SPLIT":
             splits.add((ty, names[0]))
+        elif kind == "OPENCB":                                  # a hint like SPLIT: (type, public method, handler / comparator)
+            parse_predictions.opencb.add((ty, names[0], names[1] if len(names) > 1 else ""))
         elif kind == "MUTUALDEADLOCK" and len(names) >= 3:      # scenario kind ("pair": one instance; "cross": a.m1(b) || b.m2(a)), m1, m2
             mutual.add((ty, names[0]) + tuple(sorted(names[1:3])))
         else:
@@ -102,7 +113,7 @@ def parse_predictions(out):
 SELFTEST_EXPECTED = dict(
     dead={("RW", "Upgrade"), ("RW", "PutAll")},
     races={("RW", "GetLRU", "GetLRU"), ("RW", "Get", "GetLRU"), ("RW", "Contains", "GetLRU")},
-    mutual={("RW", "pair", "Contains", "Put"), ("RW", "cross", "PutAll", "PutAll")},
+    mutual={("RW", "pair", "Contains", "Put"), ("RW", "pair", "Contains", "PutAll"), ("RW", "cross", "PutAll", "PutAll")},   # PutAll: a batch of puts, paired with the point operations like a put
     other=set())
 
 
@@ -125,7 +136,7 @@ def spec_selftest(run, workers):
 def model_check(run, workers):
     """TLC over the extracted table.  Clean: recorded like run.mc.  Refuted: the complete list of predicted defects."""
     cfg = run.pick("MC_LockDiscipline.cfg", "MC_LockDiscipline_thorough.cfg")
-    r = run.tlc("MC_LockDiscipline", cfg=cfg, workers=workers, timeout=3000, extra=["-coverage", "1"])
+    r = run.tlc("MC_LockDiscipline", cfg=cfg, workers=workers, timeout=3000, extra=["-coverage", "1"], heap="4g")
     if "generated" not in r:
         raise vf.MachineryError("TLC produced no state count for MC_LockDiscipline:\n" + vf.tail(r["out"]))
     rec = dict(module="MC_LockDiscipline", cfg=cfg, states=r["distinct"], transitions=r["generated"], wall_s=r["wall"])
@@ -135,6 +146,7 @@ def model_check(run, workers):
                                                              "clean" if r["clean"] else "REFUTED"))
     dead, races, other, mutual = set(), set(), set(), set()
     splits = parse_predictions(r["out"])[3]
+    opencb = set(parse_predictions.opencb)
     if r["clean"]:
         if zero:
             raise vf.MachineryError("vacuity: actions never taken by MC_LockDiscipline: %s" % zero)
@@ -147,10 +159,11 @@ def model_check(run, workers):
         if not m or m.group(1) not in ("NoSelfDeadlock", "NoMutualDeadlock", "NoLeak", "NoDataRace"):
             raise vf.MachineryError("model checking of the extracted lock table failed:\n" + vf.tail(r["out"], 40))
         rec["refuted"] = m.group(1)
-        r2 = run.tlc("MC_LockDiscipline", cfg="MC_LockDiscipline_predict.cfg", workers=workers, timeout=3000)
+        r2 = run.tlc("MC_LockDiscipline", cfg="MC_LockDiscipline_predict.cfg", workers=workers, timeout=3000, heap="4g")
         if not r2["clean"]:
             raise vf.MachineryError("prediction run of MC_LockDiscipline failed:\n" + vf.tail(r2["out"], 40))
         dead, races, other, splits, mutual = parse_predictions(r2["out"])
+        opencb |= parse_predictions.opencb
         if not (dead or races or other or mutual):
             raise vf.MachineryError("TLC refuted %s but the prediction run lists nothing" % m.group(1))
         rec["predicted"] = dict(self_deadlocks=sorted(map(list, dead)), data_races=len(races), mutual_deadlocks=sorted(map(list, mutual)), other=sorted(map(str, other)))
@@ -159,6 +172,8 @@ def model_check(run, workers):
         vf.log("PREDICTED by TLC on the extracted table: %d self-deadlocks %s, %d racing pairs of point operations, %d pairs of calls waiting for each other %s, %d other"
                % (len(dead), sorted(dead)[:6], len(races), len(mutual), sorted(mutual)[:4], len(other)))
     rec["point_operations_made_of_several_critical_sections"] = sorted(map(list, splits))
+    rec["public_methods_running_caller_code_between_two_critical_sections"] = sorted(map(list, opencb))
+    model_check.opencb = opencb
     run.mc_runs.append(rec)
     return dead, races, other, splits, mutual
 
@@ -233,6 +248,14 @@ def body(run):
     # run -- the lock-discipline stages below do not depend on it and may have a verdict about the same defect
     deferred = []
     validate_past_unconfirmed(run, out, sub(meta, ["lin"]), deferred, "linearizability stage")
+    # (A3'') gated histories: another goroutine's point operation issued from inside every user-supplied function the
+    # API calls (the queue's Failed / Overflowed handlers, the comparator of every Sort).  The overlap is forced by the
+    # harness (deterministic), so a rejection reproduces in the first re-execution
+    run.validate(out, sub(meta, ["gate"]), dfs=True)
+    # ... with more cases where TLC found caller code run between two critical sections of one public method (a hint)
+    for ty in sorted({x[0] for x in model_check.opencb}):
+        outg, metag = run.drive("c10", gen="gate", args={"types": ty, "gatecases": run.pick(300, 3000)}, timeout=2400)
+        run.validate(outg, sub(metag, ["gate"]), dfs=True)
     # (A3') the point operations TLC found to be made of several critical sections, against themselves
     bytype = {}
     for ty, m in sorted(splits):
@@ -308,11 +331,12 @@ def body(run):
     run.extra["unjudged_public_methods_that_never_take_the_instance_lock"] = tab.get("public_methods_that_never_take_the_instance_lock")
     run.assumptions += [
         "the lock table is a flattening of each method body (every statement once, branches and loops ignored; locals that hold instance memory -- a copy of a reference field, a node loaded from the table or handed to a helper -- are classified flow-insensitively and accesses through them are recorded as accesses of the elements behind a slice field or of field n of SOME node; a peer parameter is assumed to reach same-receiver helpers unchanged): it can only over-approximate what a call does; both of its code-visible consequences (which calls park on the held lock, which calls never return) are checked against the real code on every run, and a disagreement is reported as a machinery failure, never as a violation",
-        "point operations are fixed by name in LockDiscipline.tla from the property statement (put/add/get/contains/remove/remove-first/last/clear/size/is-empty/enqueue/dequeue families); enumerations (Keys/Values/Entries and the enumerators), whole-structure operations and configuration calls (SetMax, SetCapacity, GetCapacity, SetNullValue, IsFull) racing against mutators are outside the property: such race reports are accepted by the trace specification and counted in the evidence; freedom from self-deadlock is checked for every public method",
+        "point operations are fixed by name in LockDiscipline.tla from the property statement (put/add/get/contains/remove/remove-first/last/clear/size/is-empty/enqueue/dequeue families), and so are the batch operations (PutAll / AddAll / RemoveAll / GetAll / ContainsAll: sequences of point operations issued through one call, judged for data races like point operations, never for atomicity); enumerations (Keys/Values/Entries and the enumerators), whole-structure operations and configuration calls (SetMax, SetCapacity, GetCapacity, SetNullValue, IsFull) racing against mutators are outside the property: such race reports are accepted by the trace specification and counted in the evidence; freedom from self-deadlock is checked for every public method",
         "race freedom is decided on the executions run (race detector as observation channel; goroutines unsynchronised except for the start barrier and the instance's own lock) plus the exhaustive exploration of the extracted field/lock table; it is not a proof over all schedules of the real code",
         "linearizability is decided on many small histories; invocation/response order is the order of stamps from one atomic counter (before the call, after the return), never wall-clock order; results are projected with the standard library only (adapters of harness/c09 and harness/c12); the answer of put/add for a NEW key and of Add in the plain maps is judged as leniently as in C09/C12",
         "sequential object: LinkedDict for all (the plain maps as the dictionary whose order is never observed, the list and the single queue as the deque of unique elements with LinkedDict's bound, the double queue as the dictionary whose value is the lane of an element, each lane with its own bound, lane 1 served first); a blocking dequeue can take effect only on a non-empty queue; programs with blocking dequeues are built so that every one of them is served whatever the schedule (unbounded queue, producers that never dequeue and put at least as many elements as there are blocking calls)",
         "schedules are not forced (no hooks): overlap comes from start barriers, lockstep rounds (harness-side spin barriers before each call), GOMAXPROCS variation, injected yields and sleeps and repetition; all of it only decides WHICH interleaving is observed; a rejected concurrent history is re-executed up to 400 times on fresh instances and every execution is judged by TLC; a rejection that does not come back is a machinery failure reported at the end of the run",
+        "user-supplied functions are gates into an operation: the gated histories install the single queue's handlers and the comparators of Sort and issue another goroutine's point operation from inside them; how long the function stays inside is decided by positive evidence (the other operation returned / is queued on the instance lock, read from the lock word) with a 50 ms fallback where the lock cannot be read and 2 s where it can: timing can only lose the overlap; the double queue's handlers (unexported, no setter) and LinkedKey.Hash / Equals are not gated; the comparator is the natural order of the keys or its reverse, which is the rank order of the adapters' pools (asc / desc of LinkedDict.Sort)",
         "NoSplit (a point operation is one critical section on its instance) is explored by TLC on the extracted table but is a hint, not a verdict: the operations it lists (on the unchanged tree the queues' GetTimeout, a retry loop over GetNoWait) get directed concurrent histories, and only a non-linearizable real history is a violation",
         "watchdogs (4 s per call or per sequence of calls in one state, 15 s per history) only have to beat scheduler stalls: a spurious timeout does not reproduce in the triage re-run and ends as exit 2; a call that panics is accepted by the lock-discipline binding (panics of single calls are C09/C12's subject) but not inside a concurrent history",
         "the instance lock is reached by reflect+unsafe on the private lock field named by the table; 'parked on the lock' is read from the waiter count in sync.Mutex's state word and, for a sync.RWMutex, from its reader count (Go 1.2x layout; before first use the harness exercises a readers-writer lock of its own and checks that these words say what is assumed), no timing involved; a lock that is a lock only by its use (a field of another type with Lock / Unlock) cannot be held from outside: the footprint of such a type is taken with nothing held",
